@@ -228,6 +228,8 @@ func discharge(obls []*Oblig, dir string, timeoutSec int, all bool) {
 						o.Solver = r2.Solver
 						o.Output = r2.Output
 						o.Model = r2.Output
+						o.FailedPart = pi
+						o.CexVals = extractCex(o, dir, timeoutSec)
 					}
 				}
 				break
